@@ -793,3 +793,23 @@ register(Contract(
 
 _e1("C18.elem_trace", A + "FiniteBifieldElement.trace", _e1_cfgs)
 _e1("C18.elem_conjugates", A + "FiniteBifieldElement.conjugates", _e1_cfgs)
+
+
+@obligation("C18.poly_eq_hash_consistent", function=A + "BinaryPolynomial.__eq__; " + A + "BinaryPolynomial.__hash__", configs=_one_cfg, kind="custom", engine="E1")
+def poly_eq_hash_consistent(spec, cfg, tier, seed):
+    """derived from the two proved contracts (modular step): p == q  =>  hash(p) == hash(q)"""
+    from vk.e1.contract import CONTRACTS, Rec
+
+    t0 = time.time()
+    p, q = Rec(BP, value=z3.Int("p.value")), Rec(BP, value=z3.Int("q.value"))
+    e, hp, hq = z3.Bool("eq_result"), z3.Int("hash_p"), z3.Int("hash_q")
+    ce, ch = CONTRACTS[A + "BinaryPolynomial.__eq__"], CONTRACTS[A + "BinaryPolynomial.__hash__"]
+    hyps = list(ce.ensures(NS(self=p, other=q), e, NS()).values()) + list(ch.ensures(NS(self=p), hp, NS()).values()) + list(ch.ensures(NS(self=q), hq, NS()).values())
+    s = z3.Solver()
+    s.set("timeout", 10000)
+    s.add(*hyps)
+    s.add(z3.Not(z3.Implies(e, hp == hq)))
+    r = s.check()
+    return [ObResult(prop=spec.prop, ob=f"{spec.id}/equal_objects_equal_hashes", config=str(cfg), function=spec.function, engine="E1", backend="z3", kind="proof",
+                     verdict="discharged" if r == z3.unsat else "undecided", solver_s=round(time.time() - t0, 3), wall_s=round(time.time() - t0, 3),
+                     detail="from the contracts of __eq__ (value equality) and __hash__ (hash of value; Python's int hash as an uninterpreted function)")]
